@@ -112,6 +112,22 @@ func genList(r *corr.Rand) (setup []string, threads [][]string) {
 	return
 }
 
+// genFresh: a filesystem nobody has used yet — its very first operations are issued concurrently
+// (the lazy initialisation of the name table must be safe under read-locked first calls too)
+func genFresh(r *corr.Rand) (setup []string, threads [][]string) {
+	h := corr.HexS
+	nt := 2 + r.Intn(4)
+	for t := 0; t < nt; t++ {
+		var ops []string
+		for k := 0; k < 1+r.Intn(3); k++ {
+			ops = append(ops, corr.Pick(r, []string{"stat " + h("/"), "open " + h("/"), "stat " + h("/a"), "chmod " + h("/a") + " 384", "chtimes " + h("/") + " 5",
+				"mkdir " + h("/d") + " 493", "create " + h("/a"), "openfile " + h("/a") + " 66 420", "mkdirall " + h("/d/s") + " 493", "open " + h("/d")}))
+		}
+		threads = append(threads, ops)
+	}
+	return
+}
+
 // genIO: private handles of several goroutines on one file
 func genIO(r *corr.Rand) (setup []string, threads [][]string) {
 	h := corr.HexS
@@ -165,7 +181,9 @@ func main() {
 		for i := 0; i < n; i++ {
 			var setup []string
 			var threads [][]string
-			switch i % 4 {
+			switch i % 5 {
+			case 4:
+				setup, threads = genFresh(rng.Fork())
 			case 1:
 				setup, threads = genList(rng.Fork())
 			case 3:
